@@ -53,6 +53,35 @@ theorem forIn_any (l : List α) (p : α → Bool) (r : ρ) (f : Unit → α → 
 theorem whileFuel_succ (c : σ → Bool) (b : σ → Flow ρ σ) (n : Nat) (s : σ) :
     whileFuel c b (n + 1) s = if c s then (b s).bind (whileFuel c b n) else .run s := rfl
 
+@[simp] theorem forInB_nil (s : σ) (f : σ → α → Flow ρ (Bool × σ)) : forInB [] s f = .run s := rfl
+@[simp] theorem forInB_cons (a : α) (l : List α) (s : σ) (f : σ → α → Flow ρ (Bool × σ)) :
+    forInB (a :: l) s f = (f s a).bind (fun r => if r.1 then .run r.2 else forInB l r.2 f) := rfl
+
+@[simp] theorem whileFuelB_zero (c : σ → Bool) (b : σ → Flow ρ (Bool × σ)) (s : σ) : whileFuelB c b 0 s = .run s := rfl
+theorem whileFuelB_succ (c : σ → Bool) (b : σ → Flow ρ (Bool × σ)) (n : Nat) (s : σ) :
+    whileFuelB c b (n + 1) s =
+      if c s then (b s).bind (fun r => if r.1 then .run r.2 else whileFuelB c b n r.2) else .run s := rfl
+
+/-- a body that never breaks: the loops with `break` are the plain ones -/
+theorem forInB_eq_forIn (l : List α) (s : σ) (f : σ → α → Flow ρ σ) :
+    forInB l s (fun s a => (f s a).bind (fun s' => .run (false, s'))) = forIn l s f := by
+  induction l generalizing s with
+  | nil => rfl
+  | cons a l ih =>
+    rw [forInB_cons, forIn_cons]
+    cases f s a <;> simp [ih]
+
+theorem whileFuelB_eq_whileFuel (c : σ → Bool) (b : σ → Flow ρ σ) (n : Nat) (s : σ) :
+    whileFuelB c (fun s => (b s).bind (fun s' => .run (false, s'))) n s = whileFuel c b n s := by
+  induction n generalizing s with
+  | zero => rfl
+  | succ n ih =>
+    rw [whileFuelB_succ, whileFuel_succ]
+    cases c s
+    · rfl
+    · simp only [if_true]
+      cases b s <;> simp [ih]
+
 /-! ### index lists of three-clause loops -/
 
 /-- `for i := a; i < b; i++` on `uint`: `a, a+1, …, b-1` -/
